@@ -10,7 +10,7 @@ _state = {"seed": None, "orders": set(), "calls": 0}
 def _perm(items, key):
     if _state["seed"] is None:
         return items
-    r = random.Random(f"{_state['seed']}:{key}")
+    r = random.Random(f"{_state['seed']}:{key!a}")  # ascii(): a path may hold bytes that are not UTF-8 (lone surrogates)
     items = sorted(items, key=lambda x: x if isinstance(x, (str, bytes)) else x.name)
     r.shuffle(items)
     _state["calls"] += 1
